@@ -372,8 +372,21 @@ MAINLOOP:
 			// nothing would ever tell us about it. Read it once more now
 			// that the watch exists (the checksum filters out the common
 			// case in which nothing changed).
-			if rereadVal, rereadErr := ws.Value(ctx, t); rereadErr == nil {
+			rereadVal, rereadErr := ws.Value(ctx, t)
+			switch rereadErr.(type) {
+			case nil:
 				newVal, parseErr = rereadVal, nil
+			case *unchangedCSumErr:
+				// nothing changed in between
+			default:
+				// It changed in between and cannot be read or decoded
+				// now. Nothing will tell us about that change either,
+				// so this error must not be dropped: report what was
+				// read first (if anything), then the error.
+				if parseErr == nil {
+					args.ReportNewValue(ctx, newVal)
+				}
+				parseErr = rereadErr
 			}
 		}
 
